@@ -229,6 +229,13 @@ def selectors():
     )
     S['*'] = Node(['*'], ((('universal', (None, '*')),), (0, 0, 0, 0)))
     S['p|a'] = Node(['p|', Name('a')], ((_t('a', NS_P),), (0, 0, 0, 1)), needs_ns=True)
+    # explicitly in no namespace / in any namespace: neither needs a declaration
+    S['|a'] = Node(['|', Name('a')], ((_t('a', ''),), (0, 0, 0, 1)))
+    S['*|a'] = Node(['*|', Name('a')], ((_t('a', -1),), (0, 0, 0, 1)))
+    S['a:not(|b)'] = Node(
+        [Name('a'), Word('not', prefix=':', simple=False), '(', O(), '|', Name('b'), O(), ')'],
+        ((_t('a'), ('negation-start', ':not('), ('negation-type-selector', ('', 'b')), ('negation-end', ')')), (0, 0, 0, 2)),
+    )
     # unprefixed type selector in a sheet whose default namespace is NS_P
     S['a@default'] = Node([Name('a')], ((_t('a', NS_P),), (0, 0, 0, 1)))
     for n in S.values():
